@@ -3,11 +3,11 @@
 The perturbation matrix P (what ``ComplexStep._generate_perturbations`` builds) has, in column k, the single non-zero entry
 ``1j * h_k`` in row ``row(k)`` (= the k-th differentiated component), h_k != 0.
 
-KNOWN DEFECT (reported, see `finding_regions`): ``ComplexStep._compute_grad`` divides by ``input_perturbations[k, k].imag`` - the
-DIAGONAL entry - instead of the non-zero entry ``input_perturbations[row(k), k].imag`` of column k.  The two coincide only when
-``row(k) == k`` for all k, i.e. when x_indices is the leading prefix 0..n-1 in order; otherwise the division is by zero
-(numpy: inf / nan with a RuntimeWarning).  Natively: ``ComplexStep(f, step=1e-30).f_gradient(array([1., 2., 3.]), x_indices=[1, 2])``
-returns a matrix of ``inf``.
+``_compute_grad`` divides by ``input_perturbations[:, k].imag.sum()``: the sum of a column with exactly one non-zero entry is that
+entry (lemma proved by induction below; the one-hot shape of the columns is the verified postcondition of ``_generate_perturbations``).
+
+History: until fde9871 the code divided by the DIAGONAL entry ``input_perturbations[k, k].imag``, which is zero unless x_indices is the
+leading prefix 0..n-1 (``f_gradient(array([1., 2., 3.]), x_indices=[1, 2])`` returned ``inf``); found with this contract, repaired.
 """
 from __future__ import annotations
 
@@ -74,7 +74,7 @@ class ComplexStepComputeGrad(Contract):
         i, k = z3.Int("i!rq"), z3.Int("k!rq")
         a, b = z3.Const("a!fm", F1.sort()), z3.Const("b!fm", F1.sort())
         return [
-            ("perturbation-shape", z3.And(ln(Pre, 0) == d, n <= d)),  # at most d pairwise distinct components
+            ("perturbation-shape", z3.And(ln(Pre, 0) == d, n <= d)),  # one column per differentiated component, pairwise distinct: at most d
             # what _generate_perturbations builds: column k = 1j * h(k) * e_row(k), h(k) != 0
             ("differentiated-components", z3.ForAll([k], z3.Implies(z3.And(0 <= k, k < n), z3.And(0 <= row(k), row(k) < d, h(k) != 0)))),
             ("perturbations-are-imaginary", z3.ForAll([i, k], z3.Implies(z3.And(0 <= i, i < d, 0 <= k, k < n), z3.Select(Pre.obj.elems, i, k) == 0))),
@@ -83,10 +83,11 @@ class ComplexStepComputeGrad(Contract):
             ("output-dimension-is-fixed", z3.ForAll([a, b], z3.And(F1.dim(FIM(a, b)) == z3.Int("m_out"), F1.dim(FRE(a, b)) == z3.Int("m_out"), z3.Int("m_out") >= 0))),
         ]
 
-    def finding_regions(self, c):
-        Pre, _ = _parts(c)
-        k = z3.Int("k!fr")
-        return {"differentiated-components-are-not-the-leading-prefix": z3.Exists([k], z3.And(0 <= k, k < ln(Pre, 1), row(k) != k))}
+    @staticmethod
+    def one_hot_sum(env):
+        """The summed vector input_perturbations[:, k].imag has its single non-zero entry h(k) at row(k) (see the preconditions)."""
+        k = env["perturbation_index"].term
+        return row(k), h(k)
 
     def ensures(self, c):
         x = c.old.input_values
@@ -95,6 +96,25 @@ class ComplexStepComputeGrad(Contract):
         j = z3.Int("j!cg")
         return [("one-row-per-perturbation", g.n == ln(Pre, 1)),
                 ("imaginary-part-over-the-step-used", z3.ForAll([j], z3.Implies(z3.And(0 <= j, j < g.n), cs_quotient_ok(g.elems[j], x, Pre, Pim, j))))]
+
+
+
+from pyvc.values import TDict, TStr, TVal  # noqa: E402
+
+schema(CS + "#par", {"f_pointer": FPC, "_step": TReal, "_normalize": TBool, "_parallel": TBool, "_design_space": TNone,
+                     "_parallel_args": TDict(TStr, TVal), "_function_kwargs": TDict(TStr, TVal)})
+
+
+@register
+class ComplexStepComputeParallelGrad(ComplexStepComputeGrad):
+    """Same quotients as the sequential computation (C13), the outputs being taken positionally from the parallel execution
+    (summary of the C13 contract of CallableParallelExecution.execute, pyvc/plug_c16.py; the task is the real _wrap_function)."""
+
+    targets = (CS + "._compute_parallel_grad",)
+    prop = ("C16", "C13")
+    self_schema = CS + "#par"
+    modifies = ("self",)  # self._function_kwargs
+    loops = {}
 
 
 # ---------------------------------------------------------------------------- the perturbation matrix
@@ -136,4 +156,28 @@ class ComplexStepGeneratePerturbations(Contract):
             ("columns", z3.ForAll([i, k], z3.Implies(rng, el(Pim, i, k) == z3.If(i == idx.elems[k], hk, z3.RealVal(0))))),
             ("non-zero-steps", z3.ForAll([k], z3.Implies(z3.And(0 <= k, k < idx.n, step != 0), hk != 0))),
             ("step-returned", s.term == step),
+        ]
+
+
+@register
+class OneHotSumLemmas(Contract):
+    """Induction (base + step) for: if a[i] == (c if i == r else 0) for 0 <= i < m then psum(a, m) == (c if 0 <= r < m else 0),
+    psum being the prefix-sum function of the numpy model with its recursive definition."""
+
+    targets = ()
+    prop = ("C16",)
+    lemma = True
+
+    def lemmas(self):
+        A = z3.ArraySort(z3.IntSort(), z3.RealSort())
+        psum = z3.Function("psum_f", A, z3.IntSort(), z3.RealSort())
+        a, b = z3.Const("a", A), z3.Const("b!ps", A)
+        r, m, t, i = z3.Int("r"), z3.Int("m"), z3.Int("t!ps"), z3.Int("i!oh")
+        cv = z3.Real("c")
+        definition = z3.And(z3.ForAll([b], psum(b, 0) == 0), z3.ForAll([b, t], z3.Implies(t >= 0, psum(b, t + 1) == psum(b, t) + b[t]), patterns=[psum(b, t + 1)]))
+        onehot = lambda n: z3.ForAll([i], z3.Implies(z3.And(0 <= i, i < n), a[i] == z3.If(i == r, cv, z3.RealVal(0))))  # noqa: E731
+        claim = lambda n: psum(a, n) == z3.If(z3.And(0 <= r, r < n), cv, z3.RealVal(0))  # noqa: E731
+        return [
+            ("one-hot-sum:base", z3.Implies(definition, claim(0))),
+            ("one-hot-sum:step", z3.Implies(z3.And(definition, m >= 0, onehot(m + 1), z3.Implies(onehot(m), claim(m))), claim(m + 1))),
         ]
